@@ -54,6 +54,7 @@ PRED = [
     ('p_isint', lambda x: type(x) is int),  # pylint: disable=unidiomatic-typecheck
     ('p_truthy', lambda x: x),
     ('p_notnone', lambda x: x is not None),
+    ('p_edges', lambda x: x < 23 or x >= 44),
 ]
 GEN = [
     ('g_none', lambda x: []),
@@ -224,9 +225,23 @@ def is_sweep(case):
     return len(case) == 2
 
 
+def is_layout(case):
+    """(partitions, stages, action): the dataset is built from explicit partition lists"""
+    return len(case) == 3
+
+
+def _parts_of(case):
+    """(stages, action, source description, plain input list)"""
+    if is_layout(case):
+        return case[1], case[2], f'layout{[len(p) for p in case[0]]}', _flat(case[0])
+    return case[2], case[3], case[1], list(case[0])
+
+
 def kind(case):
     if is_sweep(case):
         return 'sweep'
+    if is_layout(case):
+        return 'layout:' + ACT[case[2][0]]
     return ACT[case[3][0]] + ('/' + '+'.join(TR[o[0]] for o in case[2]) if len(case[2]) == 1 else f'/{len(case[2])}')
 
 
@@ -323,11 +338,15 @@ def impl_sweep(case):
 def impl(case):
     if is_sweep(case):
         return impl_sweep(case)
-    xs, n, ops, act = case
     out = []
     ctx = Context()
     try:
-        rdd = ctx.parallelize(copy.deepcopy(xs), n)
+        if is_layout(case):
+            layout, ops, act = case
+            rdd = ctx._parallelize_partitions(iter(copy.deepcopy(layout)))  # pylint: disable=protected-access
+        else:
+            xs, n, ops, act = case
+            rdd = ctx.parallelize(copy.deepcopy(xs), n)
         out.append(copy.deepcopy(rdd.glom().collect()))
     except Exception as e:  # pylint: disable=broad-except
         return out + [Err(type(e).__name__)]
@@ -493,7 +512,7 @@ def oracle(case, result):
         if count != ln or sum(sz for _, sz in sizes) != ln:
             return ('parallelize:count', f'parallelize(range({ln}), {n}): count() = {count}, glom sizes {sizes!r}')
         return None
-    xs, n, ops, act = case
+    ops, act, n, xs = _parts_of(case)
     if not isinstance(result, list) or not result:
         return ('harness:no-result', repr(result)[:200])
     g0 = result[0]
@@ -561,6 +580,8 @@ def oracle(case, result):
 def nontrivial(case, result):
     if is_sweep(case):
         return case[0] > 0 and case[1] > 1
+    if is_layout(case):
+        return len([p for p in case[0] if p]) > 1
     xs, _, ops, act = case
     return bool(xs) and (bool(ops) or act[0] != A_COLLECT)
 
@@ -796,10 +817,92 @@ def sweep_cases(rng, tier):
     return cases
 
 
+NUMERIC_ACTIONS = [(A_MEAN,), (A_MEAN,), (A_SUM,), (A_MIN,), (A_MAX,), (A_COUNT,), (A_REDUCE, OP_ADD), (A_REDUCE, OP_MAX),
+                   (A_FOLD, 0, OP_ADD), (A_AGGREGATE, (0, 0), OP_SUMCOUNT, OP_PAIRADD), (A_AGGREGATE, 0, OP_COUNT, OP_ADD),
+                   (A_COUNTBYVALUE,), (A_TOP, 3, 2), (A_TAKEORDERED, 3, 1), (A_AGGREGATE, [], OP_APPEND, OP_EXTEND)]
+
+
+def _layout(sizes, rng, style):
+    """integer data laid out in partitions of the given sizes"""
+    total = sum(sizes)
+    if style == 0:
+        data = list(range(total))
+    elif style == 1:
+        data = [rng.randint(-9, 30) for _ in range(total)]
+    else:
+        data = [rng.choice([0, 1, 1, 2, 7, 100, -50]) for _ in range(total)]
+    out, k = [], 0
+    for sz in sizes:
+        out.append(data[k:k + sz])
+        k += sz
+    return out
+
+
+def unequal_sizes(rng):
+    """partition sizes with ratios beyond 10x in both directions, empty partitions in between, total <= ~60"""
+    big = rng.randint(21, 48)
+    tiny = lambda: rng.choice([1, 2, 2, 3, 4])  # noqa: E731  pylint: disable=unnecessary-lambda-assignment
+    shape = rng.randrange(8)
+    if shape == 0:
+        sizes = [big, tiny()]
+    elif shape == 1:
+        sizes = [tiny(), big]
+    elif shape == 2:
+        sizes = [big] + [tiny() for _ in range(rng.randint(2, 5))]
+    elif shape == 3:
+        sizes = [tiny() for _ in range(rng.randint(1, 3))] + [big] + [tiny() for _ in range(rng.randint(1, 3))]
+    elif shape == 4:
+        sizes = [big, 0, tiny(), 0, 0, tiny()]
+    elif shape == 5:
+        sizes = [0, tiny(), 0, big, 0, tiny(), 0]
+    elif shape == 6:
+        sizes = [rng.randint(11, 25), 1, rng.randint(11, 25), 2]
+    else:
+        sizes = [rng.choice([0, 1, 2, 3, 12, 30]) for _ in range(rng.randint(2, 7))]
+    while sum(sizes) > 62:
+        sizes[sizes.index(max(sizes))] -= 5
+    return sizes
+
+
+def layout_cases(rng, tier):
+    """numeric (and a few other) actions on datasets with very unequal partition sizes and on longer inputs:
+    StatCounter.mergeStats and every other per-partition/combine pair take different branches there"""
+    cases = []
+    # fixed shapes x every numeric action
+    fixed = [[23, 2], [2, 23], [44, 2], [2, 44], [30, 1, 1, 1], [1, 1, 30], [22, 0, 2], [0, 2, 0, 22, 0], [40, 3, 0, 3],
+             [11, 1], [1, 11], [21, 2, 21, 2], [50, 2, 2, 2, 2], [3, 31, 3], [12, 12, 1], [60], [0, 0, 5], [24, 2, 2]]
+    for sizes in fixed:
+        for style in (0, 1):
+            for act in NUMERIC_ACTIONS:
+                cases.append((_layout(sizes, rng, style), [], copy.deepcopy(act)))
+    # filter-unbalanced pipelines on evenly sliced longer inputs, and long inputs in many slices
+    for ln, n in ((46, 2), (48, 4), (60, 3), (24, 12), (36, 12), (50, 25), (60, 30), (33, 11), (45, 9)):
+        for act in ((A_MEAN,), (A_SUM,), (A_MAX,), (A_MIN,), (A_AGGREGATE, (0, 0), OP_SUMCOUNT, OP_PAIRADD)):
+            cases.append((list(range(ln)), n, [], act))
+            cases.append((list(range(ln)), n, [(T_FILTER, 7)], act))       # p_edges: x < 23 or x >= 44
+            cases.append((list(range(ln)), n, [(T_FILTER, 7), (T_MAP, 1)], act))
+    # random
+    for _ in range(300 if tier == 'quick' else 4000):
+        lay = _layout(unequal_sizes(rng), rng, rng.randrange(3))
+        ops = []
+        r = rng.random()
+        if r < 0.25:
+            ops = [rng.choice([(T_MAP, 1), (T_MAP, 3), (T_FILTER, 2), (T_FILTER, 3), (T_FILTER, 7), (T_MAPPARTITIONS, 1),
+                               (T_FLATMAP, 2), (T_PERSIST,), (T_COALESCE, rng.randint(1, 4))])]
+        cases.append((lay, ops, copy.deepcopy(rng.choice(NUMERIC_ACTIONS))))
+    for _ in range(100 if tier == 'quick' else 1500):
+        ln = rng.randint(20, 60)
+        xs = [rng.randint(-9, 30) for _ in range(ln)]
+        cases.append((xs, rng.randint(2, ln), [], copy.deepcopy(rng.choice(NUMERIC_ACTIONS[:8]))))
+    return cases
+
+
 def generate(rng, tier):
     quick = tier == 'quick'
     cases = [copy.deepcopy(c) for c in REGRESSIONS]
-    cases += sweep_cases(rng, tier)     # early: also the head of the search stream when an obligation breaks
+    # early: also the head of the search stream when an obligation breaks
+    cases += sweep_cases(rng, tier)
+    cases += layout_cases(rng, tier)
     ints = [0, 1, 2]
     mixed = [(0, 1), (1, 'a'), 'ab']
     # (1) exhaustive small scope: single stages
@@ -840,6 +943,14 @@ def generate(rng, tier):
             cases.append((copy.deepcopy(xs), n, [(T_KEYS,)], (A_COUNTBYVALUE,)))
             cases.append((copy.deepcopy(xs), n, [(T_ZIP, [7, 8, 9], n)], (A_COLLECT,)))
             cases.append((copy.deepcopy(xs), n, [(T_FILTER, 5), (T_ZIP, [(0, 1), (0, 2), (1, 3)], n)], (A_COLLECTASMAP,)))
+    # None / falsy elements (an "is this partition empty" test must not look at the values): exhaustive
+    for xs in _inputs_upto([None, 0, 2], 3):
+        for n in range(1, len(xs) + 3):
+            for ac in ((A_REDUCE, OP_FIRST), (A_REDUCE, OP_LAST), (A_FIRST,), (A_TAKE, 1), (A_COUNT,), (A_COUNTBYVALUE,),
+                       (A_AGGREGATE, 0, OP_COUNT, OP_ADD), (A_AGGREGATE, [], OP_APPEND, OP_EXTEND), (A_FOLD, None, OP_FIRST)):
+                cases.append((copy.deepcopy(xs), n, [], ac))
+            cases.append((copy.deepcopy(xs), n, [(T_FILTER, 5)], (A_COLLECT,)))
+            cases.append((copy.deepcopy(xs), n, [(T_ZIPWITHINDEX,)], (A_COLLECTASMAP,)))
     # large slice counts, numSlices None / 0 / negative
     for xs in ([], [1], [1, 2, 3], list(range(10)), ['a', None, (1, 2)]):
         for n in (None, 0, -2, 17, 100, 1000):
@@ -866,6 +977,17 @@ def _known_flat(case):
 
 def shrink_candidates(case):
     if is_sweep(case):
+        return
+    if is_layout(case):
+        layout, ops, act = case
+        for i in range(len(ops)):
+            yield (layout, ops[:i] + ops[i + 1:], act)
+        for i, p in enumerate(layout):
+            if len(p) > 1:
+                yield (layout[:i] + [p[:len(p) // 2]] + layout[i + 1:], ops, act)
+                yield (layout[:i] + [p[:-1]] + layout[i + 1:], ops, act)
+            if not p:
+                yield (layout[:i] + layout[i + 1:], ops, act)
         return
     xs, n, ops, act = case
     for i in range(len(ops)):
